@@ -328,25 +328,6 @@ def _check_bins(ctx, func, trace, bins_, label, who, bounds=frozenset({"S", "E"}
     check_bin_guard(ctx, func, label, trace, who)
 
 
-def _pair_key(node):
-    """('base', 'start'|'end') for X.start / X_start / d['start'] / start."""
-    if isinstance(node, ast.Attribute):
-        which = {"start": "start", "end": "end", "stop": "end"}.get(node.attr)
-        if which:
-            return (ast.unparse(node.value), which)
-    if isinstance(node, ast.Name):
-        for suf, which in (("start", "start"), ("end", "end"), ("stop", "end")):
-            if node.id == suf:
-                return ("", which)
-            if node.id.endswith("_" + suf):
-                return (node.id[: -len(suf) - 1], which)
-    if isinstance(node, ast.Subscript) and isinstance(node.slice, ast.Constant):
-        which = {"start": "start", "end": "end", "stop": "end"}.get(node.slice.value)
-        if which:
-            return (ast.unparse(node.value), which)
-    if isinstance(node, ast.Call) and is_name(node.func, "int") and len(node.args) == 1:
-        return _pair_key(node.args[0])
-    return None
 
 
 def _r3_bin_provenance(ctx):
